@@ -193,11 +193,18 @@ def check_gnutls_ecdsa(chk, prog, env, model):
                     self.d, self.c = d, c
             d = dict(ld[0])
             d.pop(vkey(base), None)
-            for t, k in ll[0].items():
-                d[t] = d.get(t, 0) + k
-            end = subst_concrete(it, s, None) if False else None
             # substitute pinned sizes
             tot_c = ld[1] + ll[1]
+            # a pointer to element k of the output buffer (a helper was handed buf + k) is the buffer plus k
+            import re as _re
+            for t in list(d):
+                if t[0] == 'ref' and len(t) == 3 and t[1] == base.loc and isinstance(t[2], str):
+                    m_ = _re.match(_re.escape(base.path) + r'\[(\d+)\]$', t[2])
+                    if m_ and d[t] == 1:
+                        tot_c += int(m_.group(1))
+                        del d[t]
+            for t, k in ll[0].items():
+                d[t] = d.get(t, 0) + k
             dd = {}
             for t, k in d.items():
                 key = t[1] if t[0] == 'term' else t
